@@ -63,6 +63,12 @@ FLOAT_TARGETS = [
     ('note_seq.performance_lib', 'MetricPerformance.to_sequence@seconds_per_step', 'trf_sigma_metric', 'F', {'qpm': 'F'}),
     ('note_seq.performance_lib', 'Performance.to_sequence@seconds_per_step', 'trf_sigma_performance', 'F', {}),
     ('note_seq.performance_lib', 'NotePerformance.to_sequence@seconds_per_step', 'trf_sigma_noteperformance', 'F', {}),
+    ('note_seq.audio_io', 'crop_samples@samples_to_crop', 'trf_crop_begin', 'Z',
+     {'samples': 'len', 'sample_rate': 'Z', 'crop_beginning_seconds': 'F', 'total_length_seconds': 'F'}),
+    ('note_seq.audio_io', 'crop_samples@total_samples', 'trf_crop_total', 'Z',
+     {'samples': 'len', 'sample_rate': 'Z', 'crop_beginning_seconds': 'F', 'total_length_seconds': 'F'}),
+    ('note_seq.audio_io', 'repeat_samples_to_duration@num_repeats', 'trf_num_repeats', 'Z',
+     {'samples': 'len', 'sample_rate': 'Z', 'duration': 'F'}),
     ('note_seq.sequences_lib', 'sequence_to_pianoroll/frames_from_times', 'trf_frames_from_times', 'ZZ',
      {'frames_per_second': 'F', 'min_frame_occupancy_for_label': 'F', 'start_time': 'F', 'end_time': 'F'}),
 ]
@@ -126,6 +132,8 @@ class Tr(object):
                 sym = {ast.Add: '+', ast.Sub: '-', ast.Mult: '*', ast.Div: '/'}.get(type(e.op))
                 if sym is None:
                     raise TranslationError('float operator %s' % type(e.op).__name__)
+                if sym == '/':
+                    self.guards.append(('fzero', fb))        # Python float division by zero raises
                 return '(%s %s %s)%%float' % (fa, sym, fb), 'F'
             a, b = self.z(e.left, env), self.z(e.right, env)
             if isinstance(e.op, ast.Add):
@@ -179,6 +187,9 @@ class Tr(object):
             f = e.func
             if isinstance(f, ast.Name) and f.id in ('min', 'max') and len(e.args) == 2 and not e.keywords:
                 return '(Z.%s %s %s)' % (f.id, self.z(e.args[0], env), self.z(e.args[1], env)), 'Z'
+            if (isinstance(f, ast.Name) and f.id == 'len' and len(e.args) == 1 and isinstance(e.args[0], ast.Name)
+                    and ('len(%s)' % e.args[0].id) in env):
+                return env['len(%s)' % e.args[0].id], 'Z'       # the length of a sequence argument is a parameter
             if isinstance(f, ast.Name) and f.id == 'abs' and len(e.args) == 1:
                 return '(Z.abs %s)' % self.z(e.args[0], env), 'Z'
             def int_div_of_ints(x):
@@ -188,10 +199,14 @@ class Tr(object):
                     ast.unparse(e.args[0].func) in ('math.ceil', 'math.floor') and len(e.args[0].args) == 1 and
                     not int_div_of_ints(e.args[0].args[0]) and self.is_float(e.args[0].args[0], env)):
                 fn = 'fceil' if ast.unparse(e.args[0].func) == 'math.ceil' else 'ffloor'
-                return '(%s %s)' % (fn, self.expr(e.args[0].args[0], env)[0]), 'Z'
+                arg = self.expr(e.args[0].args[0], env)[0]
+                self.guards.append(('fin', arg))               # math.ceil of inf/nan raises
+                return '(%s %s)' % (fn, arg), 'Z'
             if (isinstance(f, ast.Name) and f.id == 'int' and len(e.args) == 1 and not isinstance(e.args[0], ast.Call)
                     and self.is_float(e.args[0], env)):
-                return '(trunc %s)' % self.expr(e.args[0], env)[0], 'Z'       # int() of a finite float truncates
+                arg = self.expr(e.args[0], env)[0]
+                self.guards.append(('fin', arg))               # int() of inf/nan raises
+                return '(trunc %s)' % arg, 'Z'                 # int() of a finite float truncates
             if isinstance(f, ast.Name) and f.id == 'int' and len(e.args) == 1:
                 inner = e.args[0]
                 if (isinstance(inner, ast.Call) and isinstance(inner.func, ast.Attribute) and
@@ -261,7 +276,12 @@ class Tr(object):
 
         def wrap(body):
             for g in reversed(guards):
-                body = 'if (%s =? 0) then None else %s' % (g, body)
+                if isinstance(g, tuple) and g[0] == 'fzero':
+                    body = 'if PrimFloat.eqb %s 0%%float then None else %s' % (g[1], body)
+                elif isinstance(g, tuple) and g[0] == 'fin':
+                    body = 'if finb %s then %s else None' % (g[1], body)
+                else:
+                    body = 'if (%s =? 0) then None else %s' % (g, body)
             for tmp, call in reversed(calls):
                 body = 'match %s with Some %s => %s | None => None end' % (call, tmp, body)
             return body
@@ -395,6 +415,10 @@ def translate(modname, qual, coqname, kind, coqnames, ptypes=None):
                 params.append(fv)
                 env[fv] = fv
     for n in names:
+        if (ptypes or {}).get(n) == 'len':      # a sequence argument used only through len(): parameter len_<name>
+            params.append('len_' + n)
+            env['len(%s)' % n] = 'len_' + n
+            continue
         params.append(n)
         env[n] = n
     stmts = [x for x in fd.body if not (isinstance(x, ast.Expr) and isinstance(x.value, ast.Constant))]
